@@ -153,6 +153,21 @@ func (ms *modelSession) litOf(s smt.Sort, v string) *smt.Term {
 
 func parseIntVal(v string) (*big.Int, bool) {
 	v = strings.TrimSpace(v)
+	if strings.HasPrefix(v, "#x") {
+		n, ok := new(big.Int).SetString(v[2:], 16)
+		return n, ok
+	}
+	if strings.HasPrefix(v, "#b") {
+		n, ok := new(big.Int).SetString(v[2:], 2)
+		return n, ok
+	}
+	if strings.HasPrefix(v, "(_ bv") {
+		f := strings.Fields(v[5:])
+		if len(f) > 0 {
+			n, ok := new(big.Int).SetString(f[0], 10)
+			return n, ok
+		}
+	}
 	neg := false
 	if strings.HasPrefix(v, "(-") {
 		neg = true
@@ -209,6 +224,7 @@ type concretizer struct {
 	nvar    int
 	notes   []string
 	budget  int
+	top     []string // top-level declarations of the test file (stub types)
 }
 
 const replayK = 12
@@ -410,6 +426,61 @@ func (cz *concretizer) expr(tm *smt.Term, t types.Type, depth int) string {
 		}
 		return fmt.Sprintf("%s{%s}", cz.typeStr(t), strings.Join(parts, ", "))
 	case *types.Interface:
+		if named, isNamed := t.(*types.Named); isNamed && named.Obj().Pkg() != nil {
+			// an interface of a package outside the module whose methods are declared `extern attr`: a stub type
+			// is generated whose methods return what the model's functions return (at zero arguments)
+			prefix := named.Obj().Pkg().Path() + "." + named.Obj().Name() + "."
+			attrs := map[string][]string{}
+			for _, pc := range ex.externContracts() {
+				for k, ufs := range pc.ExternAttr {
+					if strings.HasPrefix(k, prefix) {
+						if _, dup := attrs[k[len(prefix):]]; !dup {
+							attrs[k[len(prefix):]] = ufs
+						}
+					}
+				}
+			}
+			if len(attrs) > 0 {
+				if v := cz.ms.ask([]*smt.Term{c.Eq(tm, ex.W.zeroOfSort(ex.W.Iface))})[0]; v == "true" {
+					return "nil"
+				}
+				stub := cz.newVar("verifStub")
+				var sb strings.Builder
+				fmt.Fprintf(&sb, "type %s struct{}\n", stub)
+				for i := 0; i < u.NumMethods(); i++ {
+					m := u.Method(i)
+					sig := m.Type().(*types.Signature)
+					var ps []string
+					ts := []*smt.Term{tm}
+					sorts := []smt.Sort{tm.Sort}
+					for j := 0; j < sig.Params().Len(); j++ {
+						pt := sig.Params().At(j).Type()
+						ps = append(ps, fmt.Sprintf("a%d %s", j, cz.typeStr(pt)))
+						z := ex.W.zeroOfSort(ex.W.SortOf(pt))
+						ts = append(ts, z)
+						sorts = append(sorts, z.Sort)
+					}
+					var rts, rvs []string
+					for j := 0; j < sig.Results().Len(); j++ {
+						rt := sig.Results().At(j).Type()
+						rts = append(rts, cz.typeStr(rt))
+						if ufs, ok := attrs[m.Name()]; ok && j < len(ufs) {
+							so := ex.W.SortOf(rt)
+							c.DeclareFun("uf_"+ufs[j], sorts, so)
+							rvs = append(rvs, cz.expr(c.App("uf_"+ufs[j], so, ts...), rt, depth+1))
+						} else {
+							rvs = append(rvs, cz.zero(rt))
+						}
+					}
+					if sig.Params().Len() > 0 && len(attrs[m.Name()]) > 0 {
+						cz.notes = append(cz.notes, "stub method "+m.Name()+" returns the model's value at zero arguments for every argument")
+					}
+					fmt.Fprintf(&sb, "func (%s) %s(%s) (%s) { return %s }\n", stub, m.Name(), strings.Join(ps, ", "), strings.Join(rts, ", "), strings.Join(rvs, ", "))
+				}
+				cz.top = append(cz.top, sb.String())
+				return fmt.Sprintf("%s(%s{})", cz.typeStr(t), stub)
+			}
+		}
 		tag, ok := cz.ms.intOf(c.App("iface_tag", smt.Int, tm))
 		if !ok || tag.Sign() == 0 {
 			return "nil"
@@ -551,7 +622,11 @@ func tryReplay(p *Program, r *OblResult, vdir, replayDir string) *ReplayResult {
 	for _, path := range imps {
 		fmt.Fprintf(&sb, "\t%s %q\n", cz.imports[path], path)
 	}
-	fmt.Fprintf(&sb, ")\n\n// Replay of obligation %s\n// generated by govc from the solver's model; runs the real function.\nfunc TestVerifReplay(t *testing.T) {\n", r.Obl.Name)
+	fmt.Fprintf(&sb, ")\n\n")
+	for _, d := range cz.top {
+		sb.WriteString(d + "\n")
+	}
+	fmt.Fprintf(&sb, "// Replay of obligation %s\n// generated by govc from the solver's model; runs the real function.\nfunc TestVerifReplay(t *testing.T) {\n", r.Obl.Name)
 	for _, s := range cz.stmts {
 		fmt.Fprintf(&sb, "\t%s\n", s)
 	}
